@@ -31,5 +31,7 @@ PROPS: dict = {
     "C10": {"suites": [prims.suite_merge], "rule": RULE_MERGE},
     "C11": {"suites": [prims.suite_isim], "rule": RULE_PRIM},
     "C12": {"suites": [prims.suite_bits], "rule": RULE_PRIM},
+    "C17": {"suites": [props_tree.c17], "rule": RULE_TREE + "; configuration stream: constructor with names / merge-function objects / "
+            "no criterion x tolerance given or not, set_merge with every subset of its arguments, setters, reset"},
     "C20": {"suites": [monitor.suite_monitor], "rule": RULE_MON, "proof_modules": ["BBProps.C20", "BBProofs.Monitor", "BBModel.Monitor"]},
 }
